@@ -53,16 +53,16 @@ func (p *sstate) witness() string {
 }
 
 type selfExplorer struct {
-	m       *Machine
-	multi   bool
-	stack   string
-	kind    string
-	workers int
-	dis     map[string]Disagreement
-	undec   map[string]bool
-	stats   *ExploreStats
+	m                  *Machine
+	multi              bool
+	stack              string
+	kind               string
+	workers            int
+	dis                map[string]Disagreement
+	undec              map[string]bool
+	stats              *ExploreStats
 	firstPop, lastCand int
-	noNote  bool // do not register pushed frames as pop candidates (the caller registers tagged frames itself)
+	noNote             bool // do not register pushed frames as pop candidates (the caller registers tagged frames itself)
 }
 
 const maxLag = 6
